@@ -1,5 +1,7 @@
 import RedisVerif.Driver.Codec
+import RedisVerif.Driver.C01
 import RedisVerif.Props.C05
+import RedisVerif.Model.Txn7
 
 /-
   C05 sub-driver (stateful): the connection-level transaction machine `Txn.step` and the
@@ -28,6 +30,16 @@ import RedisVerif.Props.C05
     TBL <inTxn> <errors> <w:0 none|1 same|2 changed> <qlen> <input class>
                                 → <reply class> <inTxn'> <errors'> <qlen' | -> <old watch armed 01 | -> <new key armed 01 | ->
                                 one cell of the connection-level decision table (`tableReply` …)
+    M …                         the same machines over the M7 REFERENCE executor (`Model/Txn7.lean`: the whole
+                                command set of `Model/Redis.lean`, deadlines, the clock):
+      M NEW <now> | M RECONNECT | M T <now> (the clock reads <now>) | M DUMP
+      M C MULTI | DISCARD | UNWATCH | WATCH <n> <key>* | CMD <op in the C01 line syntax> | PING | UNK | PERR
+          | PROTO | CHAN | LOCAL <id> | EXEC <slots> (<m> <fcmd>{m}){slots}      <fcmd> ::= D <op> | T <now>
+      M F <op>                  a command of another client between two inputs
+      M X NEW <now> | M X T <now> | M X DUMP | M X MULTI | EXEC | DISCARD | UNWATCH | WATCH <n> <key>* | CMD <op>
+                                the executor-level machine over M7
+      replies: data replies in the C01 reply syntax; EXEC → `*<n> | <reply> | …`; M DUMP → keys with a
+      deadline FLAG (`+` / `-1`), M X DUMP → keys with their remaining TTL
     <cmd> ::= GET k | SET k v | INCR k | APPEND k v | DEL k | RPUSH k <n> v* | LRANGE k | LLEN k
             | LSET k v (index 0) | LPOP k | HSET k f v | HDEL k f | SADD k m | SREM k m
             | ZADD k <int> m | ZREM k m | EXPIRE k | PERSIST k <had01> | EVICT k
@@ -194,10 +206,153 @@ structure St where
   /-- which tree the connection-level machine follows: false = the pinned commit, true = the
       current tree (fix 6b9d6a7: a protocol error between MULTI and EXEC flags the transaction) -/
   protoFlags : Bool
+  /-- the machines over the M7 reference executor -/
+  mconn : ConnTxn Nat Txn7.Cmd7 Txn7.Rep7
+  mnode : Txn7.Node
+  mxt : ExTxn Nat Txn7.Cmd7 Redis.Value
+  mxnode : Txn7.Node
 
 def St.init : St :=
   { conn := ConnTxn.idle, store := [], xt := ExTxn.idle, xstore := [], sht := ExTxn.idle,
-    shstore := [], rstore := [], protoFlags := false }
+    shstore := [], rstore := [], protoFlags := false,
+    mconn := ConnTxn.idle, mnode := Txn7.Node.init 0, mxt := ExTxn.idle, mxnode := Txn7.Node.init 0 }
+
+/-! ### the M7 instance -/
+
+open Txn7 in
+def fcmd7P : P Cmd7 := do
+  let t ← tok
+  match t with
+  | "D" => do let c ← C01.cmd; pure (.data c)
+  | "T" => do let n ← nat; pure (.tick n)
+  | _ => failure
+
+open Txn7 in
+def sched7P : P (List (List Cmd7)) := do
+  let n ← nat
+  repeatP n (do let m ← nat; repeatP m fcmd7P)
+
+open Txn7 in
+def input7P : P (Input Nat Cmd7 × List (List Cmd7)) := do
+  let t ← tok
+  match t with
+  | "MULTI" => pure (.multi, [])
+  | "DISCARD" => pure (.discard, [])
+  | "UNWATCH" => pure (.unwatch, [])
+  | "EXEC" => do let sc ← sched7P; pure (.exec, sc)
+  | "WATCH" => do let n ← nat; let ks ← repeatP n strKey; pure (.watch ks, [])
+  | "CMD" => do let c ← C01.cmd; pure (.cmd (.data c), [])
+  | "PING" => pure (.cmd .ping, [])
+  | "UNK" => pure (.unknown .unknown, [])
+  | "PERR" => pure (.parseErr, [])
+  | "PROTO" => pure (.protoErr, [])
+  | "CHAN" => pure (.chanStub (.loc .publish), [])
+  | "LOCAL" => do
+    let n ← nat
+    match localOf n with
+    | some l => pure (.connLocal (.loc l), [])
+    | none => failure
+  | _ => failure
+
+open Txn7 in
+def xinput7P : P (XInput Nat Cmd7) := do
+  let t ← tok
+  match t with
+  | "MULTI" => pure .multi
+  | "DISCARD" => pure .discard
+  | "UNWATCH" => pure .unwatch
+  | "EXEC" => pure .exec
+  | "WATCH" => do let n ← nat; let ks ← repeatP n strKey; pure (.watch ks)
+  | "CMD" => do let c ← C01.cmd; pure (.cmd (.data c))
+  | _ => failure
+
+/-- a reply of the M7 instance; `c` = the command it answers (unordered replies are canonicalised
+    as in the C01 driver) -/
+def showRep7 (c : Option Txn7.Cmd7) : Txn7.Rep7 → String
+  | .other r => showRep r
+  | .data r =>
+    match c with
+    | some (.data d) => C01.showReply (C01.canonReply d r)
+    | _ => C01.showReply r
+
+def showResults7 (q : List Txn7.Cmd7) (rs : List Txn7.Rep7) : String :=
+  " | ".intercalate (s!"*{rs.length}" :: (q.zip rs).map (fun p => showRep7 (some p.1) p.2))
+
+def showReply7 (q : List Txn7.Cmd7) (c : Option Txn7.Cmd7) : Reply Txn7.Rep7 → String
+  | .ok => "+OK"
+  | .queued => "+QUEUED"
+  | .err e => showConnErr e
+  | .nil => "*-"
+  | .results rs => showResults7 q rs
+  | .plain r => showRep7 c r
+
+def xqCmd : XQ Txn7.Cmd7 → Txn7.Cmd7
+  | .cmd c => c
+  | .unwatch => .unwatch
+
+def showXReply7 (q : List Txn7.Cmd7) (c : Option Txn7.Cmd7) : XReply Txn7.Rep7 → String
+  | .ok => "+OK"
+  | .queued => "+QUEUED"
+  | .err .nestedMulti => "-nested-multi"
+  | .err .watchInMulti => "-watch-in-multi"
+  | .err .execWithoutMulti => "-exec-without-multi"
+  | .err .discardWithoutMulti => "-discard-without-multi"
+  | .nil => "$-"
+  | .results rs => showResults7 q rs
+  | .plain r => showRep7 c r
+
+/-- the visible keyspace with a deadline FLAG instead of the remaining TTL (the connection-level
+    runs are on the wall clock) -/
+def showDumpFlags (n : Txn7.Node) : String :=
+  let v := Redis.view n.s n.now
+  " ".intercalate (toString v.length :: v.map (fun p =>
+    let ttl := match p.2.ttl with | none => "-1" | some _ => "+"
+    s!"{showKey p.1} {ttl} {C01.showValue p.2.val}"))
+
+def inputCmd7 : Input Nat Txn7.Cmd7 → Option Txn7.Cmd7
+  | .cmd c => some c
+  | _ => none
+
+def step7 (st : St) : List String → St × String
+  | ["NEW", now] =>
+    match now.toNat? with
+    | some t => ({ st with mconn := ConnTxn.idle, mnode := Txn7.Node.init t }, "ok")
+    | none => (st, "bad-op")
+  | ["RECONNECT"] => ({ st with mconn := ConnTxn.idle }, "ok")
+  | ["T", now] =>
+    match now.toNat? with
+    | some t => ({ st with mnode := (Txn7.exec7 st.mnode (.tick t)).1 }, "ok")
+    | none => (st, "bad-op")
+  | ["DUMP"] => (st, showDumpFlags st.mnode)
+  | "C" :: rest =>
+    match (input7P.run rest) with
+    | some ((inp, sc), []) =>
+      let r := Txn.stepWith st.protoFlags Txn7.backend7 sc st.mconn st.mnode inp
+      ({ st with mconn := r.1, mnode := r.2.1 }, showReply7 st.mconn.queue (inputCmd7 inp) r.2.2)
+    | _ => (st, "bad-op")
+  | "F" :: rest =>
+    match (C01.cmd.run rest) with
+    | some (c, []) =>
+      let r := Txn7.exec7 st.mnode (.data c)
+      ({ st with mnode := r.1 }, showRep7 (some (.data c)) r.2)
+    | _ => (st, "bad-op")
+  | ["X", "NEW", now] =>
+    match now.toNat? with
+    | some t => ({ st with mxt := ExTxn.idle, mxnode := Txn7.Node.init t }, "ok")
+    | none => (st, "bad-op")
+  | ["X", "T", now] =>
+    match now.toNat? with
+    | some t => ({ st with mxnode := (Txn7.exec7 st.mxnode (.tick t)).1 }, "ok")
+    | none => (st, "bad-op")
+  | ["X", "DUMP"] => (st, C01.showDump st.mxnode.s st.mxnode.now)
+  | "X" :: rest =>
+    match (xinput7P.run rest) with
+    | some (inp, []) =>
+      let r := Txn.xstep Txn7.xbackend7 (.other (.simple .ok)) st.mxt st.mxnode inp
+      let c := match inp with | .cmd c => some c | _ => none
+      ({ st with mxt := r.1, mxnode := r.2.1 }, showXReply7 (st.mxt.queue.map xqCmd) c r.2.2)
+    | _ => (st, "bad-op")
+  | _ => (st, "bad-op")
 
 def showRReply : RReply KV.Rep → String
   | .ok => "+OK"
@@ -233,6 +388,7 @@ def tblCell (inTxn errors : Bool) (w q : Nat) (c : ICls) : String :=
 
 def step (st : St) (line : String) : St × String :=
   match tokens line with
+  | "M" :: rest => step7 st rest
   | ["NEW"] => ({ st with conn := ConnTxn.idle, store := [] }, "ok")
   | ["XNEW"] => ({ st with xt := ExTxn.idle, xstore := [] }, "ok")
   | ["G", "proto-flags", v] => ({ st with protoFlags := v == "1" }, "ok")
